@@ -376,8 +376,14 @@ func TestExhaustive(t *testing.T) {
 		sizes, fills, len(readPatterns(2)), n))
 }
 
-func TestPropRoundTrip(t *testing.T) {
-	rapidProp.Rapid(t, func(t *rapid.T) Case {
+func TestPropRoundTrip(t *testing.T) { rapidProp.Rapid(t, genRoundTrip) }
+
+// TestConcRoundTrip: batches of 8 cases evaluated at the same time (see vh.Prop.Concurrent):
+// encoders and decoders working on their own payloads must not influence each other.
+func TestConcRoundTrip(t *testing.T) { rapidProp.Concurrent(t, genRoundTrip, 8, 3) }
+
+func genRoundTrip(t *rapid.T) Case {
+	{
 		c := Case{Draft: rapid.SampledFrom([]int{2, 3}).Draw(t, "draft")}
 		switch rapid.IntRange(0, 3).Draw(t, "rs-mode") {
 		case 0:
@@ -448,5 +454,5 @@ func TestPropRoundTrip(t *testing.T) {
 			}
 		}
 		return c
-	})
+	}
 }
